@@ -156,7 +156,7 @@ class CFBinding:
     def reject(self, mab, kind, feat):
         arms = list(mab.arms)
         first = arms[0]
-        unknown = [v for v in self.lm.values() if v not in arms]
+        unknown = [v for v in self.lm.values() if v not in arms] + [{"int": 777, "str": "zz", "float": 77.5}[self.lmname]]
         good_r = self.reward(1) if self.lp != "ts" else 1
         feats = {a: [1.0, 0.0] for a in arms}
         table = {
@@ -361,6 +361,7 @@ class Replay:
         self.samples = []
         self.current = None
         self.pure = {}
+        self.fits = {}
         self.sig_counts = {}
 
     def key(self, state):
@@ -442,9 +443,15 @@ class Replay:
                 self.check_fresh(obj, twin, edge, label, skey)
             known = self.objs.get(tkey)
             pure = self.pure.get(skey, True) and op in ("fit", "partial_fit", "predict", "predict_expectations")
+            nfits = self.fits.get(skey, 0) + (1 if op == "fit" or (op == "partial_fit" and not edge["s"]["fitted"]) else 0)
+            if getattr(b, "single_fit_confluence", False) and nfits > 1:
+                pure = False          # a second fit starts from another stream position (new hyperplanes)
+            if not getattr(b, "confluence_ok", True):
+                pure = False
             if known is None:
                 self.objs[tkey] = obj
                 self.pure[tkey] = pure
+                self.fits[tkey] = nfits
                 self.parent[tkey] = (skey, edge)
                 self.stats["states"] += 1
                 if "clone" in self.checks and self.stats["states"] % self.clone_every == 0:
@@ -455,6 +462,12 @@ class Replay:
                 # C06: different chunkings of the same rows (fit / partial_fit only) must give identical objects
                 self.stats["confluent"] += 1
                 a, c = snapshot(obj, rng=False, skip=skip), snapshot(known, rng=False, skip=skip)
+                if a != c and not getattr(b, "strict_snapshots", True):
+                    # internal representations may differ unobservably: decide by outputs from the same stream position
+                    from harness.snap import copy_streams
+                    other = copy.deepcopy(known)
+                    if copy_streams(obj, other) and same(self.probe(obj), self.probe(other)):
+                        a = c
                 if a != c:
                     self.report("confluence.snapshot",
                                 "two call sequences reach the same documented state but different objects: %s; other path %s"
@@ -464,7 +477,10 @@ class Replay:
     # -- C17 ---------------------------------------------------------------
     def check_reject(self, obj, label, outcome, value, before_rng, skey):
         kind = label["kind"]
-        allowed = REJECT_CLASSES[kind]
+        if outcome == "skip":
+            self.stats["rejects_not_applicable"] = self.stats.get("rejects_not_applicable", 0) + 1
+            return
+        allowed = REJECT_CLASSES.get(kind, _BOTH + (("Exception",) if kind.startswith("predict") else ()))
         if outcome == "ok":
             self.report("reject.noraise", "invalid call %s was accepted" % kind, skey, label)
             return
@@ -527,10 +543,40 @@ class Replay:
     def _eq(arm):
         return arm.item() if hasattr(arm, "item") else arm
 
+    def probe(self, mab):
+        """Outputs of a fixed continuation on a deep copy: what a user can observe of the model."""
+        b = self.b
+        work = copy.deepcopy(mab)
+        out = []
+        for step in (getattr(b, "probe_steps", None) or [("predict_expectations", 1), ("predict", 1)]):
+            try:
+                if step[0] in ("predict", "predict_expectations"):
+                    out.append(getattr(work, step[0])(b.contexts(step[1])))
+                elif step[0] == "cold_arms":
+                    out.append(list(work.cold_arms))
+                elif step[0] == "partial_fit":
+                    out.append(b.call(work, {"op": "partial_fit", "rows": step[1]})[0])
+            except Exception as error:  # noqa
+                out.append("raised " + type(error).__name__)
+        return out
+
     # -- C07 ---------------------------------------------------------------
     def check_fresh(self, obj, before, edge, label, skey):
         b = self.b
         self.stats["fresh"] += 1
+        if not getattr(b, "strict_snapshots", True):
+            state = edge["s"]
+            fresh = b.new(state["arms"], state.get("bin", "none"))
+            fresh._rng.rng.bit_generator.state = before._rng.rng.bit_generator.state
+            outcome, value = b.call(fresh, label, self.feat)
+            if outcome != "ok":
+                self.report("fresh.exception", "fit on a fresh bandit raised %s: %s" % (outcome, value), skey, label)
+                return
+            x, y = self.probe(obj), self.probe(fresh)
+            if not same(x, y):
+                self.report("fresh.outputs", "after fit the bandit answers %s; a fresh bandit fit on the same data from the "
+                            "same generator state answers %s" % (_fmt(x), _fmt(y)), skey, label)
+            return
         state = edge["s"]
         fresh = b.new(state["arms"], state.get("bin", "none"))
         fresh._rng.rng.bit_generator.state = before._rng.rng.bit_generator.state
